@@ -88,16 +88,284 @@ def extract(src):
     return out
 
 
+# ---------------------------------------------------------------------------------------------------------
+# a small typed translator for the C conditions of the text paths: C expression -> Gallina term
+# ---------------------------------------------------------------------------------------------------------
+C_VARS = {"el": "int", "nel": "int", "fnum": "int", "mNfields": "int", "colnum": "int", "i": "int", "size_per_el": "int",
+          "row": "int", "mNrows": "int", "mReadAsWhitespace": "bool", "add_delim": "bool", "mDelim[0]": "byte"}
+C_NAMES = {"mDelim[0]": "delim"}
+_TOK = re.compile(r"\s*(?:(\d+)|('(?:\\.|[^\\'])')|([A-Za-z_]\w*(?:\s*\[\s*0\s*\])?)|(&&|\|\||<=|>=|==|!=|[<>!+\-()]))")
+
+
+def _tokens(text):
+    out, pos = [], 0
+    text = text.strip()
+    while pos < len(text):
+        m = _TOK.match(text, pos)
+        if not m:
+            raise TranslateError("cannot tokenise C expression at %r" % text[pos:pos + 20])
+        num, ch, ident, op = m.groups()
+        if num is not None:
+            out.append(("num", num))
+        elif ch is not None:
+            out.append(("chr", ch))
+        elif ident is not None:
+            out.append(("id", re.sub(r"\s+", "", ident)))
+        else:
+            out.append(("op", op))
+        pos = m.end()
+    return out
+
+
+def c_expr(text):
+    """(gallina term, type) of a C condition over the variables of C_VARS; anything else fails closed"""
+    toks = _tokens(text)
+    pos = [0]
+
+    def peek():
+        return toks[pos[0]] if pos[0] < len(toks) else (None, None)
+
+    def take():
+        t = peek()
+        pos[0] += 1
+        return t
+
+    def atom():
+        k, v = take()
+        if k == "num":
+            return v, "int"
+        if k == "chr":
+            body = v[1:-1]
+            esc = {"\\n": 10, "\\t": 9, "\\0": 0, "\\r": 13, "\\\\": 92, "\\'": 39}
+            code = esc[body] if body in esc else (ord(body) if len(body) == 1 else None)
+            if code is None:
+                raise TranslateError("unsupported character literal %s" % v)
+            return "x%02x" % code, "byte"
+        if k == "id":
+            if v not in C_VARS:
+                raise TranslateError("unknown identifier %r in a translated condition" % v)
+            return C_NAMES.get(v, v), C_VARS[v]
+        if (k, v) == ("op", "("):
+            e = orexp()
+            if take() != ("op", ")"):
+                raise TranslateError("missing ) in C expression")
+            return e
+        if (k, v) == ("op", "!"):
+            e, t = atom()
+            if t != "bool":
+                raise TranslateError("! applied to a non-boolean")
+            return "(negb %s)" % e, "bool"
+        raise TranslateError("unexpected token %r in C expression" % (v,))
+
+    def addexp():
+        e, t = atom()
+        while peek() in (("op", "+"), ("op", "-")):
+            op = take()[1]
+            e2, t2 = atom()
+            if t != "int" or t2 != "int":
+                raise TranslateError("arithmetic on non-integers")
+            e = "(%s %s %s)" % (e, op, e2)
+        return e, t
+
+    def cmpexp():
+        e, t = addexp()
+        if peek()[0] == "op" and peek()[1] in ("<", "<=", ">", ">=", "==", "!="):
+            op = take()[1]
+            e2, t2 = addexp()
+            if t != t2:
+                raise TranslateError("comparison of %s with %s" % (t, t2))
+            if t == "int":
+                e = {"<": "(%s <? %s)" % (e, e2), "<=": "(%s <=? %s)" % (e, e2), ">": "(%s <? %s)" % (e2, e),
+                     ">=": "(%s <=? %s)" % (e2, e), "==": "(%s =? %s)" % (e, e2), "!=": "(negb (%s =? %s))" % (e, e2)}[op]
+            elif t == "byte" and op in ("==", "!="):
+                e = "(byte_eqb %s %s)" % (e, e2) if op == "==" else "(negb (byte_eqb %s %s))" % (e, e2)
+            else:
+                raise TranslateError("unsupported comparison %s on %s" % (op, t))
+            return e, "bool"
+        return e, t
+
+    def andexp():
+        e, t = cmpexp()
+        while peek() == ("op", "&&"):
+            take()
+            e2, t2 = cmpexp()
+            if t != "bool" or t2 != "bool":
+                raise TranslateError("&& on non-booleans")
+            e = "(%s && %s)" % (e, e2)
+        return e, t
+
+    def orexp():
+        e, t = andexp()
+        while peek() == ("op", "||"):
+            take()
+            e2, t2 = andexp()
+            if t != "bool" or t2 != "bool":
+                raise TranslateError("|| on non-booleans")
+            e = "(%s || %s)" % (e, e2)
+        return e, t
+
+    e, t = orexp()
+    if pos[0] != len(toks):
+        raise TranslateError("trailing tokens in C expression %r" % text)
+    return e, t
+
+
+def c_cond(text, what):
+    e, t = c_expr(text)
+    if t != "bool":
+        raise TranslateError("%s: condition %r is not boolean" % (what, text))
+    return e
+
+
+def _paren_cond(text, start):
+    """text[start] == '(' : returns (inside, index after the matching ')')"""
+    depth, j = 0, start
+    while j < len(text):
+        if text[j] == "(":
+            depth += 1
+        elif text[j] == ")":
+            depth -= 1
+            if depth == 0:
+                return text[start + 1:j], j + 1
+        j += 1
+    raise TranslateError("unbalanced parentheses")
+
+
+def _if_conds_before(body, stmt_regex, what, expect):
+    """conditions of the `if (<cond>) { <stmt> }` blocks whose body is exactly stmt_regex, in source order"""
+    out = []
+    for m in re.finditer(r"\bif\s*\(", body):
+        cond, after = _paren_cond(body, m.end() - 1)
+        m2 = re.match(r"\s*\{\s*%s\s*\}" % stmt_regex, body[after:])
+        if m2:
+            out.append((cond, m.start()))
+    if len(out) != expect:
+        raise TranslateError("%s: expected %d guarded statement(s) /%s/, found %d" % (what, expect, stmt_regex, len(out)))
+    return out
+
+
+def extract_structure(src):
+    """conditions and characters that decide the layout of the text and the reader's cursor moves"""
+    src = strip_comments(src)
+    out = {}
+    # -- set_delim...: mReadAsWhitespace = (<cond>)
+    m = re.findall(r"if\s*\(([^{};]*)\)\s*\{\s*mReadAsWhitespace\s*=\s*true\s*;\s*\}\s*else\s*\{\s*mReadAsWhitespace\s*=\s*false\s*;\s*\}", src)
+    if len(m) != 1:
+        raise TranslateError("expected exactly one `if (c) {mReadAsWhitespace=true;} else {mReadAsWhitespace=false;}`, found %d" % len(m))
+    out["ws_mode"] = c_cond(m[0], "white-space mode")
+    others = re.findall(r"mReadAsWhitespace\s*=\s*(\w+)", src)
+    if sorted(others) != ["false", "false", "true"]:
+        raise TranslateError("unexpected assignments to mReadAsWhitespace: %s" % others)
+    # -- WriteField: delimiter between elements (inside the element loop) and behind the field
+    wf = _body(src, "WriteField")
+    conds = _if_conds_before(wf, r'fprintf\s*\(\s*mFptr\s*,\s*"%s"\s*,\s*mDelim\.c_str\s*\(\s*\)\s*\)\s*;', "WriteField", 2)
+    loop = re.search(r"for\s*\(\s*long\s+long\s+el\s*=\s*0\s*;\s*el\s*<\s*nel\s*;\s*el\+\+\s*\)\s*\{", wf)
+    adv = re.search(r"mData\s*\+=\s*elsize\s*;", wf)
+    if not loop or not adv or not (loop.end() < conds[0][1] < adv.start() < conds[1][1]):
+        raise TranslateError("WriteField: element loop / delimiter positions not as expected")
+    if not re.search(r"long\s+long\s+nel\s*=\s*mNel\s*\[\s*fnum\s*\]\s*;", wf):
+        raise TranslateError("WriteField: nel = mNel[fnum] not found")
+    out["elem_delim"] = c_cond(conds[0][0], "WriteField element delimiter")
+    out["field_delim"] = c_cond(conds[1][0], "WriteField field delimiter")
+    # -- WriteRows: loops over rows and fields from 0, one terminator character per row
+    wr = _body(src, "WriteRows")
+    if not re.search(r"for\s*\(\s*long\s+long\s+row\s*=\s*0\s*;\s*row\s*<\s*mNrows\s*;\s*row\+\+\s*\)", wr) or \
+       not re.search(r"for\s*\(\s*long\s+long\s+fnum\s*=\s*0\s*;\s*fnum\s*<\s*mNfields\s*;\s*fnum\+\+\s*\)", wr):
+        raise TranslateError("WriteRows: row / field loops not of the form for (x=0; x< n; x++)")
+    term = re.findall(r"fputc\s*\(\s*('(?:\\.|[^\\'])')\s*,\s*mFptr\s*\)\s*;", wr)
+    if len(term) != 1:
+        raise TranslateError("WriteRows: expected exactly one fputc('<c>', mFptr), found %d" % len(term))
+    out["row_term"] = c_expr(term[0])[0]
+    # -- read_from_text_column: one extra fgetc behind a numeric field under a condition
+    rc = _body(src, "read_from_text_column")
+    conds = _if_conds_before(rc, r"fgetc\s*\(\s*mFptr\s*\)\s*;", "read_from_text_column", 1)
+    if not re.search(r"if\s*\(\s*mTypeNums\s*\[\s*colnum\s*\]\s*==\s*NPY_STRING\s*\)\s*\{\s*read_ascii_bytes\s*\(\s*colnum\s*,\s*buff\s*\)\s*;\s*\}\s*else\s*\{\s*scan_column_values\s*\(\s*colnum\s*,\s*buff\s*\)\s*;\s*if", rc):
+        raise TranslateError("read_from_text_column: string/number dispatch not as expected")
+    out["extra_getc"] = c_cond(conds[0][0], "read_from_text_column extra fgetc")
+    # -- read_ascii_bytes: per element size_per_el bytes, then one fgetc
+    ra = _body(src, "read_ascii_bytes")
+    m = re.search(r"for\s*\(\s*long\s+long\s+i\s*=\s*0\s*;([^;]*);\s*i\+\+\s*\)\s*\{\s*c\s*=\s*fgetc\s*\(\s*mFptr\s*\)\s*;", ra)
+    if not m:
+        raise TranslateError("read_ascii_bytes: byte loop not found")
+    out["str_loop"] = c_cond(m.group(1), "read_ascii_bytes byte loop")
+    tail = ra[m.end():]
+    if len(re.findall(r"c\s*=\s*fgetc\s*\(\s*mFptr\s*\)\s*;", tail)) != 1:
+        raise TranslateError("read_ascii_bytes: expected exactly one fgetc behind the byte loop")
+    if not re.search(r"int\s+size_per_el\s*=\s*mSizes\s*\[\s*colnum\s*\]\s*/\s*mNel\s*\[\s*colnum\s*\]\s*;", ra):
+        raise TranslateError("read_ascii_bytes: size_per_el = mSizes[colnum]/mNel[colnum] not found")
+    return out
+
+
+def extract_python(impl_dir):
+    """slice bounds of the byte-order stripping, the increment of the line counter, fingerprint of to_native"""
+    import ast
+    out = {}
+
+    def func(tree, name, cls=None):
+        nodes = [n for n in ast.walk(tree) if isinstance(n, ast.FunctionDef) and n.name == name]
+        if len(nodes) != 1:
+            raise TranslateError("expected exactly one def %s, found %d" % (name, len(nodes)))
+        return nodes[0]
+
+    def strip_slices(fn, what):
+        sl = [n for n in ast.walk(fn) if isinstance(n, ast.Subscript) and isinstance(n.slice, ast.Slice)]
+        vals = []
+        for n in sl:
+            lo, up, st = n.slice.lower, n.slice.upper, n.slice.step
+            if up is not None or st is not None or not (isinstance(lo, ast.Constant) and isinstance(lo.value, int)):
+                raise TranslateError("%s: slice is not of the form [<int>:]" % what)
+            vals.append(lo.value)
+        if not vals or len(set(vals)) != 1:
+            raise TranslateError("%s: expected slices [<n>:] with one common n, found %s" % (what, vals))
+        return vals[0]
+
+    try:
+        ut = ast.parse(open(os.path.join(impl_dir, "esutil", "recfile", "Util.py")).read())
+        sf = ast.parse(open(os.path.join(impl_dir, "esutil", "sfile.py")).read())
+    except (OSError, SyntaxError) as e:
+        raise TranslateError("cannot parse the python sources: %s" % e)
+    out["strip_recfile"] = strip_slices(func(ut, "remove_dtype_byteorder"), "remove_dtype_byteorder")
+    out["strip_sfile"] = strip_slices(func(sf, "_remove_byteorder"), "SFile._remove_byteorder")
+    # _count_nrows: the text branch is `for line in fobj: nrows += <int>` and nothing else
+    cn = func(ut, "_count_nrows")
+    fors = [n for n in ast.walk(cn) if isinstance(n, ast.For)]
+    if len(fors) != 1:
+        raise TranslateError("_count_nrows: expected exactly one for loop, found %d" % len(fors))
+    f = fors[0]
+    ok = (isinstance(f.iter, ast.Name) and f.iter.id == "fobj" and isinstance(f.target, ast.Name) and not f.orelse
+          and len(f.body) == 1 and isinstance(f.body[0], ast.AugAssign) and isinstance(f.body[0].op, ast.Add)
+          and isinstance(f.body[0].target, ast.Name) and f.body[0].target.id == "nrows"
+          and isinstance(f.body[0].value, ast.Constant) and isinstance(f.body[0].value.value, int))
+    if not ok:
+        raise TranslateError("_count_nrows: loop is not `for line in fobj: nrows += <int>`: %s" % ast.dump(f)[:300])
+    out["count_inc"] = f.body[0].value.value
+    opens = [n for n in ast.walk(cn) if isinstance(n, ast.Call) and isinstance(n.func, ast.Name) and n.func.id == "open"]
+    if len(opens) != 1 or len(opens[0].args) != 1 or opens[0].keywords:
+        raise TranslateError("_count_nrows: the file is not opened as open(self.filename) (text mode, universal newlines)")
+    # to_native: pinned by its normalised AST (fails closed on any change of the statements)
+    tn = func(ut, "to_native")
+    body = [n for n in tn.body if not (isinstance(n, ast.Expr) and isinstance(n.value, ast.Constant))]
+    out["to_native_ast"] = "; ".join(re.sub(r"\s+", " ", ast.unparse(n)) for n in body)
+    return out
+
+
+TO_NATIVE_EXPECTED = ("native_dtype = array.dtype.newbyteorder('='); if native_dtype == array.dtype: return array; "
+                      "return array.astype(native_dtype)")
+
+
 def cbytes(s):
     return "[" + "; ".join("x%02x" % ord(c) for c in s) + "]"
 
 
 def gen_text(c):
-    return """(* GENERATED by harness/props/c04_translate.py from esutil/recfile/records.cpp -- do not edit by hand.
-   Format constants of the text paths, read out of the source of the working tree that is being checked. *)
-From Coq Require Import ZArith List.
+    return """(* GENERATED by harness/props/c04_translate.py from esutil/recfile/records.cpp, esutil/recfile/Util.py and esutil/sfile.py
+   -- do not edit by hand.  Constants, conditions and characters of the text paths, read out of the source of the working
+   tree that is being checked; the tie lemmas (harness: one obligation each) state that they are what the hand model uses. *)
+From Coq Require Import ZArith List Bool.
 From Coq.Strings Require Import Byte.
+From EsVerif.Common Require Import Bytes.
 Import ListNotations.
+Open Scope Z_scope.
 
 (* make_print_formats:  formats[NPY_FLOAT] = "%%.%dg";  formats[NPY_DOUBLE] = "%%.%dg"; *)
 Definition print_prec_f4 : Z := %d%%Z.
@@ -107,8 +375,46 @@ Definition scan_conv_f4 : list byte := %s.
 Definition scan_conv_f8 : list byte := %s.
 (* make_scan_formats, (!mReadAsWhitespace) && add_delim:  formats[i] += '%s' + mDelim *)
 Definition scan_suffix_char : byte := x%02x.
+(* set delim:  if (<cond>) mReadAsWhitespace=true else false *)
+Definition ws_mode_cond (delim : byte) : bool := %s.
+(* WriteField: delimiter behind element el of nel / behind field fnum of mNfields *)
+Definition elem_delim_cond (el nel : Z) : bool := %s.
+Definition field_delim_cond (fnum mNfields : Z) : bool := %s.
+(* WriteRows: fputc(<c>, mFptr) behind every row *)
+Definition row_terminator : byte := %s.
+(* read_from_text_column: one extra fgetc behind a numeric field *)
+Definition extra_getc_cond (mReadAsWhitespace : bool) (colnum mNfields : Z) : bool := %s.
+(* read_ascii_bytes: for (i=0; <cond>; i++) c=fgetc, then one more fgetc per element *)
+Definition str_loop_cond (i size_per_el : Z) : bool := %s.
+(* remove_dtype_byteorder: dt[1][%d:]   SFile._remove_byteorder: tdef[%d:] *)
+Definition strip_recfile : nat := %d%%nat.
+Definition strip_sfile : nat := %d%%nat.
+(* Recfile._count_nrows:  for line in fobj: nrows += %d *)
+Definition count_increment : Z := %d%%Z.
 """ % (c["p4"], c["p8"], c["p4"], c["p8"], c["s4"], c["s8"], cbytes(c["s4"]), cbytes(c["s8"]),
-       c["suffix_char"] if c["suffix_char"] != "'" else "\\'", ord(c["suffix_char"]))
+       c["suffix_char"] if c["suffix_char"] != "'" else "\\'", ord(c["suffix_char"]),
+       c["ws_mode"], c["elem_delim"], c["field_delim"], c["row_term"], c["extra_getc"], c["str_loop"],
+       c["strip_recfile"], c["strip_sfile"], c["strip_recfile"], c["strip_sfile"], c["count_inc"], c["count_inc"])
+
+
+# the tie lemmas: (name, statement, proof).  Each is compiled on every run against the freshly generated Gen.v and the
+# hand model (TieProofs.v gives the model-side terms and proves that TextModel's functions are built from them).
+TIE_LEMMAS = [
+    ("scan_conv_f4", "Gen.scan_conv_f4 = TieProofs.model_scan_conv_f4", "reflexivity."),
+    ("scan_conv_f8", "Gen.scan_conv_f8 = TieProofs.model_scan_conv_f8", "reflexivity."),
+    ("scan_suffix_is_blank_directive", "TextModel.is_ws Gen.scan_suffix_char = true", "reflexivity."),
+    ("ws_mode_cond", "Gen.ws_mode_cond = TieProofs.model_ws_mode", "reflexivity."),
+    ("elem_delim_cond", "Gen.elem_delim_cond = TieProofs.model_elem_delim", "reflexivity."),
+    ("field_delim_cond", "Gen.field_delim_cond = TieProofs.model_field_delim", "reflexivity."),
+    ("row_terminator", "Gen.row_terminator = TextModel.nl", "reflexivity."),
+    ("extra_getc_cond", "Gen.extra_getc_cond = TieProofs.model_extra_getc", "reflexivity."),
+    ("str_loop_cond", "Gen.str_loop_cond = TieProofs.model_str_loop", "reflexivity."),
+    ("strip_recfile", "Gen.strip_recfile = TieProofs.model_strip", "reflexivity."),
+    ("strip_sfile", "Gen.strip_sfile = TieProofs.model_strip", "reflexivity."),
+    ("count_increment", "Gen.count_increment = TieProofs.model_count_increment", "reflexivity."),
+]
+TIE_PREAMBLE = ("From Coq Require Import ZArith List Bool.\nFrom Coq.Strings Require Import Byte.\n"
+                "From EsVerif.Common Require Import Base Bytes.\nFrom EsVerif.C04 Require Gen TextModel TieProofs.\n")
 
 
 def tie_ok(c):
@@ -117,7 +423,10 @@ def tie_ok(c):
     return c["s4"] == "f" and c["s8"] == "lf" and c["suffix_char"] == " "
 
 
-DEFAULT = {"p4": 7, "p8": 16, "s4": "f", "s8": "lf", "suffix_char": " "}
+DEFAULT = {"p4": 7, "p8": 16, "s4": "f", "s8": "lf", "suffix_char": " ", "ws_mode": "(byte_eqb delim x20)",
+           "elem_delim": "(el <? (nel - 1))", "field_delim": "(fnum <? (mNfields - 1))", "row_term": "x0a",
+           "extra_getc": "mReadAsWhitespace", "str_loop": "(i <? size_per_el)", "strip_recfile": 1, "strip_sfile": 1,
+           "count_inc": 1, "to_native_ast": None}
 
 
 def _write(coqdir, c):
@@ -133,16 +442,24 @@ def _write(coqdir, c):
 
 
 def regenerate(impl_dir, coqdir):
-    """returns (constants, changed).  When the translation fails, Gen.v is reset to the constants of the committed hand
-    model (so that a stale file from an earlier run on another tree cannot survive) and TranslateError is raised."""
+    """returns (constants, changed, problems).  Every part is translated on its own: a part that is outside the subset
+    keeps the constants of the committed hand model (DEFAULT) -- so that Gen.v always builds and the correspondence
+    always runs against the last good model -- and is reported in `problems` (list of messages; the tie is broken)."""
     p = os.path.join(impl_dir, "esutil", "recfile", "records.cpp")
+    c = dict(DEFAULT)
+    problems = []
     try:
+        src = open(p, encoding="utf-8", errors="replace").read()
+    except OSError as e:
+        src = None
+        problems.append("cannot read %s: %s" % (p, e))
+    for part in ((extract, (src,)), (extract_structure, (src,)), (extract_python, (impl_dir,))):
+        if part[1][0] is None:
+            continue
         try:
-            src = open(p, encoding="utf-8", errors="replace").read()
-        except OSError as e:
-            raise TranslateError("cannot read %s: %s" % (p, e))
-        c = extract(src)
-    except TranslateError:
-        _write(coqdir, DEFAULT)
-        raise
-    return c, _write(coqdir, c)
+            c.update(part[0](*part[1]))
+        except TranslateError as e:
+            problems.append(str(e))
+    if c.get("to_native_ast") is not None and c["to_native_ast"] != TO_NATIVE_EXPECTED:
+        problems.append("Util.to_native is not the pinned statement sequence: %s" % c["to_native_ast"][:300])
+    return c, _write(coqdir, c), problems
